@@ -191,6 +191,39 @@ def run(ctx):
                 ctx.violation('angular spectrum returns non-finite values at dx = lambda/sqrt(2) exactly',
                               {'api': api, 'n': n, 'm': m, 'dx': dx, 'lam': lam, 'z': 1.0},
                               {'api': api, 'method': 'as', 'what': 'nan_at_sampling_boundary'})
+    # ---- long stacks of fields: energy is conserved frame by frame whatever the number of frames (sizes around the powers of two a chunked
+    # implementation would use); a stack the implementation rejects is not judged
+    import odak.learn.wave as LWs
+    for kk in ((33, 65) if ctx.quick else (31, 32, 33, 40, 64, 65, 70, 129)):
+        for name in ('Angular Spectrum', 'Transfer Function Fresnel'):
+            dxs, lams, zs_, _zc = W.rand_optics(rng, 'near')
+            us = torch.from_numpy(np.stack([W.rand_field(rng, 5, 6, 'gauss') for _ in range(kk)])).to(torch.complex64)
+            ctx.case(('long_stack', name, kk), True)
+            ctx.count('long_stack/k=%d' % kk)
+            for pad in ([False, False, False], [True, False, True]):
+                try:
+                    out = LWs.propagate_beam(us, 2 * math.pi / lams, zs_, dxs, lams, propagation_type=name, zero_padding=pad)
+                except Exception:
+                    ctx.count('long_stack/rejected-by-implementation')
+                    continue
+                e_in = (us.abs() ** 2).sum(dim=(-2, -1)).double()
+                e_out = (out.abs() ** 2).sum(dim=(-2, -1)).double().reshape(-1)
+                if out.shape[0] != kk or e_out.shape[0] != kk:
+                    ctx.violation('torch %s returns %s for a stack of %d fields' % (name, tuple(out.shape), kk), {'method': name, 'stack': kk},
+                                  {'api': 'torch', 'method': name, 'what': 'shape', 'stack': True})
+                    break
+                bad = torch.nonzero((e_out - e_in).abs() > (2e-3 if not pad[0] else 0.6) * e_in + 1e-9).reshape(-1)
+                if not pad[0] and len(bad):
+                    i = int(bad[0])
+                    ctx.violation('torch %s does not conserve the energy of frame %d of a stack of %d fields: in %.6g out %.6g'
+                                  % (name, i, kk, float(e_in[i]), float(e_out[i])), {'method': name, 'stack': kk, 'frame': i, 'dx': dxs, 'lam': lams, 'z': zs_},
+                                  {'api': 'torch', 'method': name, 'what': 'energy', 'stack': True})
+                    break
+                if pad[0] and bool((e_out == 0).any()) and not bool((e_in == 0).any()):
+                    i = int(torch.nonzero(e_out == 0).reshape(-1)[0])
+                    ctx.violation('torch %s (pad-then-crop) returns an all-zero frame %d for a stack of %d non-zero fields' % (name, i, kk),
+                                  {'method': name, 'stack': kk, 'frame': i}, {'api': 'torch', 'method': name, 'what': 'energy', 'stack': True})
+                    break
     from .genkernels import check_generated_kernels; check_generated_kernels(ctx)   # kernels regenerated from the source vs implementation
 
 
